@@ -3,7 +3,11 @@
 package dragonboat
 
 import (
+	"runtime"
 	"sync"
+	"sync/atomic"
+	"time"
+	"unsafe"
 
 	"github.com/lni/dragonboat/v4/client"
 	"github.com/lni/dragonboat/v4/config"
@@ -312,3 +316,63 @@ func (v *VerifC12) BorrowCommitted(clientID, seriesID, key uint64) *RequestState
 	return p.takeProposal(clientID, seriesID, key, p.getTick(), false)
 }
 func VerifC12NotifyCommitted(r *RequestState) { r.committed() }
+
+// verifC12Waiters is the number of goroutines parked on m (sync.Mutex keeps it
+// in the bits above mutexWaiterShift = 3 of its first field).
+func verifC12Waiters(m *sync.Mutex) int32 {
+	return atomic.LoadInt32((*int32)(unsafe.Pointer(m))) >> 3
+}
+
+func verifC12Park(m *sync.Mutex, n int32, done <-chan struct{}) {
+	deadline := time.Now().Add(5 * time.Second)
+	for verifC12Waiters(m) < n {
+		select {
+		case <-done:
+			return
+		default:
+		}
+		if time.Now().After(deadline) {
+			panic("verif c12: goroutine did not reach the shard lock")
+		}
+		runtime.Gosched()
+		time.Sleep(20 * time.Microsecond)
+	}
+}
+
+// CloseRacingPropose runs the real proposalShard.close() and the real
+// proposalShard.propose() of the shard of key on two goroutines in this
+// interleaving: the harness holds the shard lock; close() is started and parks
+// on the lock; propose() is started and runs until it needs the shard lock (or
+// returns); the lock is released - close() was first in line, runs to its end,
+// then propose() continues. In terms of critical sections: everything propose()
+// does before its first shard-lock section ; close() ; the rest of propose().
+func (v *VerifC12) CloseRacingPropose(clientID, seriesID, key, timeout uint64) (rs *RequestState, err error) {
+	sh := v.pp.shards[key%v.pp.ps]
+	s := &client.Session{ShardID: 1, ClientID: clientID, SeriesID: seriesID}
+	var pc, pp interface{}
+	closed := make(chan struct{})
+	proposed := make(chan struct{})
+	sh.mu.Lock()
+	go func() {
+		defer close(closed)
+		defer func() { pc = recover() }()
+		sh.close()
+	}()
+	verifC12Park(&sh.mu, 1, closed)
+	go func() {
+		defer close(proposed)
+		defer func() { pp = recover() }()
+		rs, err = sh.propose(s, nil, key, timeout)
+	}()
+	verifC12Park(&sh.mu, 2, proposed)
+	sh.mu.Unlock()
+	<-closed
+	<-proposed
+	if pc != nil {
+		panic(pc)
+	}
+	if pp != nil {
+		panic(pp)
+	}
+	return rs, err
+}
